@@ -346,6 +346,21 @@ Section Model.
     | _, _ => None
     end.
 
+  (* CellConversion.develop_lattice, the fill transformation of one lattice
+     element: trnsf = (translation of the element, identity); the cell's own
+     fill transformation is composed FIRST (a82b50a), otherwise the cell's TRCL
+     chain is composed in front of the translation.  None = compose_transform
+     would raise (malformed lists) *)
+  Definition lattice_filltr (filltr : list T) (trcls : list (list T)) (transl : V3 T)
+    : option (list T) :=
+    let trnsf := vlist transl ++ ident9 in
+    match filltr with
+    | _ :: _ => compose_transform filltr trnsf
+    | [] =>
+        fold_left (fun acc trcl => match acc with Some t => compose_transform trcl t | None => None end)
+                  trcls (Some trnsf)
+    end.
+
   (* ---------------- ConversionSurfaceMCNPToT4 ---------------- *)
   Definition plain (k : t4kind) (p : list T) : t4surf T := mkT4 k p None.
 
